@@ -241,6 +241,9 @@ func RunSeq(alpha []*regattapb.Command, c Case) (vs []viol, outcome string, nont
 	sb.WriteString(obs)
 	// the table is the same map once the memtable has been flushed to a file (tombstones meet the
 	// versions they shadow) and after a clean restart
+	if c.Batched {
+		return vs, sb.String(), nontrivial // the flushed / restarted views are probed in the one-entry-per-call variant
+	}
 	if err := inst.Sync(); err != nil {
 		return append(vs, viol{"sync-error", err.Error()}), sb.String(), nontrivial
 	}
